@@ -46,6 +46,7 @@ std::vector<int> next_seq;      // per sender
 std::vector<Call> calls;
 uint64_t g_seq = 0;
 volatile bool close_invoked = false, close_returned = false;
+uint64_t close_seq = 0;      // global event sequence number at which close() was invoked (0 = never)
 int n_ops = 0, n_send = 0, n_recv = 0;
 struct TState { volatile int cur = -1; };
 std::vector<TState> tst;
@@ -118,7 +119,7 @@ void run_script(int t) {
         switch (o.k) {
         case OP_PAUSE: { phx::Where w(me, "pause", o.idx); if (o.pause_us) thread_usleep(o.pause_us); else thread_yield(); break; }
         case OP_CLOSE: {
-            { sim::NoSched ns; close_invoked = true; sim::ev(0xC105E); sim::note("th%d close()", t); last_activity_ns = sim::now_ns(); }
+            { sim::NoSched ns; close_invoked = true; close_seq = ++g_seq; sim::ev(0xC105E); sim::note("th%d close()", t); last_activity_ns = sim::now_ns(); }
             { phx::Where w(me, "close", o.idx); CH->close(); }
             { sim::NoSched ns; close_returned = true; }
             break; }
@@ -181,7 +182,7 @@ void controller(int self_id) {
                     HX_VIOL("stuck-receiver", "quiescent: %d receiver(s) blocked although %zu item(s) are buffered (capacity %zu)", br, sz, cap);
                 if (bs && cap > 0 && sz < cap)
                     HX_VIOL("stuck-sender", "quiescent: %d sender(s) blocked although only %zu of %zu slots are used", bs, sz, cap);
-                do_close = true; close_invoked = true; sim::note("controller closes the channel (%d senders, %d receivers blocked)", bs, br);
+                do_close = true; close_invoked = true; close_seq = ++g_seq; sim::note("controller closes the channel (%d senders, %d receivers blocked)", bs, br);
                 last_activity_ns = now;
             } else if (close_returned)
                 HX_VIOL("stuck-after-close", "quiescent after close() returned: %d sender(s) and %d receiver(s) still blocked", bs, br);
@@ -217,15 +218,17 @@ void history_oracles(std::vector<Val>& drained) {
         if (r.is_send || r.ok || r.is_try || !r.done || cap == 0) continue;
         bool by_timeout = !r.inf && r.en == ETIMEDOUT;
         if (by_timeout) continue;
-        // values certainly buffered during the whole call: sent-true before it began, minus every other receive that could have taken one
+        // values certainly buffered when the call reported 'closed': sent-true before it began or before close() was invoked
+        // (those are "the buffered items" at close), minus every other receive that could have taken one
         long supply = 0, takers = 0;
+        uint64_t horizon = std::max<uint64_t>(r.seq0, r.closed_before_return ? close_seq : 0);
         for (auto& c : calls) {
             if (&c == &r) continue;
-            if (c.is_send && c.ok && c.seq1 < r.seq0) supply++;
+            if (c.is_send && c.ok && c.seq1 < horizon) supply++;
             if (!c.is_send && c.seq0 < r.seq1 && (c.ok || !c.done || c.seq1 > r.seq0)) takers++;
         }
         if (supply - takers > 0)
-            HX_VIOL("closed-before-drained", "recv of th%d reported 'closed' (op %d) while at least %ld item(s) sent before it began were still buffered", r.th, r.op, supply - takers);
+            HX_VIOL("closed-before-drained", "recv of th%d reported 'closed' (op %d) while at least %ld item(s) whose send had returned true before the call began or before close() was invoked were still buffered", r.th, r.op, supply - takers);
     }
     (void)ok_recv_done;
     // lost wake-up for timed receives / sends on a buffered channel (zero-cost CPU only: wake-ups cost steps, not simulated time)
